@@ -172,10 +172,7 @@ func (self *visitorUserNode) OnNull() error {
 		self.inskip = false
 		return nil
 	}
-	// self.stk[self.sp].val = &visitorUserNull{}
-	if err := self.incrSP(); err != nil {
-		return err
-	}
+	// a null member denotes an absent field: nothing is written and nothing is pushed
 	return self.onValueEnd()
 }
 
